@@ -162,6 +162,7 @@ def main(argv=None):
     ap.add_argument("--one")
     ap.add_argument("--jobs", type=int, default=int(os.environ.get("VERIF_JOBS", "16")))
     ap.add_argument("--limit", type=int, default=0, help="debug: only first N cases")
+    ap.add_argument("--spread", type=int, default=0, help="debug: only N cases spread evenly over the enumeration")
     a = ap.parse_args(argv)
     pid = a.pid.upper()
     tier = a.tier if a.tier in ("quick", "thorough") else "quick"
@@ -202,6 +203,9 @@ def main(argv=None):
     keys = list(_MOD.gen_cases(tier, seed))
     if a.limit:
         keys = keys[: a.limit]
+    if a.spread:  # debug / smoke test: N keys spread evenly over the enumeration
+        step_ = max(1, len(keys) // a.spread)
+        keys = keys[::step_]
     if not keys:
         print("HARNESS-ERROR no cases generated")
         return 2
